@@ -126,6 +126,22 @@ def classify_site(p, line_no):
     return "other"
 
 
+def in_operation_code(p, line_no):
+    """True when the emitted line is outside every schema module and in front of the helper text: what a WSDL adds to the
+    file (envelope types, free functions, the service struct and its methods)."""
+    lines = open(p.emitted, encoding="utf-8", errors="replace").read().splitlines()
+    helper_start = next((i for i, l in enumerate(lines) if l.startswith("pub mod error {")), len(lines))
+    if line_no - 1 >= helper_start:
+        return False
+    inside = False
+    for l in lines[: line_no - 1]:
+        if l.startswith("pub mod ") and l.rstrip().endswith("{"):
+            inside = True
+        elif l.startswith("}"):
+            inside = False
+    return not inside
+
+
 def stage_compile(p):
     host = os.path.join(p.dir, "host.rs")
     with open(host, "w") as f:
@@ -148,7 +164,8 @@ def stage_compile(p):
                 continue
             seen.add(key)
             p.finding("compile-error", code=d["code"], site=site, message=d["message"][:200], line=d["line"],
-                      text=emitted_line(p, d["line"]) if d["line"] else "")
+                      text=emitted_line(p, d["line"]) if d["line"] else "",
+                      operation_code=bool(d["line"]) and p.ss.wsdl is not None and in_operation_code(p, d["line"]))
         if not diags:
             p.finding("compile-error", code="?", site="?", message="rustc failed without a JSON diagnostic", line=None, text="")
         return False
@@ -851,7 +868,8 @@ def run(prop, tier):
         check_generic("C07", tier, cfgs, 12, 300, sig_c07, ["static", "probe", engine_w.stage_restr], rule=(
             "WSDL programs with 3-6 restricted simple types per file (all facet kinds, derivation chains across namespaces) used as "
             "elements and attributes, optional/repeated, nested, in header and body elements; per operation: 4 all-valid request "
-            "envelopes (full/low-boundary/high-boundary/many) and one envelope per reachable (position, violated facet) with exactly one "
+            "envelopes (full/low-boundary/high-boundary/many), up to 10 more in which one leaf carries another valid value of its type "
+            "(every enumeration member, both ends of a length or value range, the empty string where the type allows it), and one envelope per reachable (position, violated facet) with exactly one "
             "violating value (enumerated, capped at 40); for each the driver records check_restrictions(None) and runs the client call "
             "against the listener, which counts accepted connections. Reference: a sample fails iff it contains the violating value. "
             "Distinct = (part/position/depth/optional/repeated/facet/derivation) cells hit by a violating sample"),
@@ -1248,6 +1266,9 @@ def sig_c05(f):
         return "C05|response-value"
     if r == "error-for-success" and f["scenario"].startswith("ok-exact"):
         return f"C05|call-failed|kind={f.get('kind')}"
+    if r == "compile-error" and f.get("operation_code"):
+        # the envelope types, functions and methods of the operations themselves do not compile: no operation can be called
+        return f"C05|operation-code-does-not-compile|code={f['code']}|site={f['site']}"
     return None
 
 
